@@ -299,7 +299,10 @@ class Scheduler(object):
             self.do(["request", self.K.choice(["pausing", "pausing", "paused"], "fault", "pkind", self.pos)])
         elif w.pause_req and self.coin("resume_early"):
             self.do(["request", self.K.choice(["resuming", "running"], "fault", "rkind", self.pos)])
-        if not w.cancel_req and self.coin("cancel"):
+        cwp = w.pause_req and not w.cancel_req and w.status == "pausing" and self.coin("cancel_while_pausing")
+        if cwp:
+            self.stats["fault_cancel_while_pausing"] = self.stats.get("fault_cancel_while_pausing", 0) + 1
+        if not w.cancel_req and (cwp or self.coin("cancel")):
             self.do(["request", self.K.choice(["canceling", "canceling", "canceled"], "fault", "ckind", self.pos)])
             if w.cancel_req:
                 for aid in sorted(w.inflight):
